@@ -254,36 +254,81 @@ def relax_falsy_constants(text):
 
 FALSY_KEY = "convert-pdl-to-pdl-interp:falsy-constant-attribute-constraint-dropped"
 RESIDX_KEY = "pdl-matcher:match_result-ignores-result-index"
+REPRES_KEY = "convert-pdl-to-pdl-interp:repeated-pdl-result-operand-unconstrained"
+
+
+def relax_repeated_results(text):
+    """Wrong-behaviour model of the known finding REPRES: the conversion's tree walk adds no predicate when it meets
+    a `pdl.result` value for the second time (pdl.ResultOp is missing from the 'already visited' equality list), so
+    every further use of that value as an operand is unconstrained.  Model: the same module where every use after
+    the first (in the conversion's traversal order: root first, operands in order, defining ops depth-first) is a
+    fresh unconstrained `pdl.operand`.  Returns (new text, number of decoupled uses)."""
+    from xdsl.dialects import pdl
+    from xdsl.parser import Parser
+    from xdsl.rewriter import InsertPoint, Rewriter
+    from xv.corpus import new_ctx
+    ctx = new_ctx()
+    module = Parser(ctx, text).parse_module()
+    n = 0
+    for pat in [o for o in module.walk() if isinstance(o, pdl.PatternOp)]:
+        rw = pat.body.block.last_op
+        if not isinstance(rw, pdl.RewriteOp) or rw.root is None:
+            continue
+        seen_vals: set = set()
+        seen_ops: set = set()
+
+        def visit(op_op):
+            nonlocal n
+            if op_op in seen_ops:
+                return
+            seen_ops.add(op_op)
+            for i, v in enumerate(list(op_op.operand_values)):
+                owner = v.owner
+                if isinstance(owner, pdl.ResultOp):
+                    if v in seen_vals:
+                        fresh = pdl.OperandOp()
+                        Rewriter.insert_op(fresh, InsertPoint.before(op_op))
+                        op_op.operands[i] = fresh.value
+                        n += 1
+                        continue
+                    seen_vals.add(v)
+                    parent = owner.parent_.owner
+                    if isinstance(parent, pdl.OperationOp):
+                        visit(parent)
+        root = rw.root.owner
+        if isinstance(root, pdl.OperationOp):
+            visit(root)
+    return str(module), n
 
 
 def classify(text, a, b, limit=10000):
-    """A and B disagree on `text`.  Returns (list of mechanism keys, details).  A known key is assigned only when the
-    disagreement disappears under the executable model of that known wrong behaviour:
-      * RESIDX: path A re-run with the result-index guard (intended behaviour of PDLMatcher.match_result) and the
-        run had at least one accepted wrong-index match;
-      * FALSY: path A re-run on the pattern whose falsy constant attribute constraints are removed (= what the
-        conversion is known to generate), and the generated matcher indeed has no check_attribute/switch_attribute
-        for such a constant;
-      * both at once when both events are present.
+    """A and B disagree on `text`.  Returns (list of mechanism keys, details).  Known keys are assigned only when
+    the disagreement disappears under the executable models of the known wrong behaviours (smallest set first):
+      * FALSY  (path B): path A re-run on the pattern whose python-falsy constant attribute constraints are removed;
+      * REPRES (path B): path A re-run on the pattern whose repeated `pdl.result` operand uses are decoupled;
+      * RESIDX (path A): path A re-run with the result-index guard (intended behaviour of PDLMatcher.match_result),
+        only when the run had at least one accepted wrong-index match.
     Anything else gets a generic key describing the observable difference."""
     ob = outcome(b)
-    det = {}
-    relaxed_text, nrel = relax_falsy_constants(text)
-    residx = a.get("result_index_mismatch", 0) > 0
-    det["falsy_constants_in_match"] = nrel
-    det["wrong_index_matches_in_A"] = a.get("result_index_mismatch", 0)
-    if residx:
-        a1 = run_a(text, limit, guard_result_index=True)
-        if outcome(a1) == ob:
-            return [RESIDX_KEY], det
-    if nrel:
-        a2 = run_a(relaxed_text, limit)
-        if outcome(a2) == ob:
-            return [FALSY_KEY], det
-        if a2.get("result_index_mismatch", 0) > 0:
-            a3 = run_a(relaxed_text, limit, guard_result_index=True)
-            if outcome(a3) == ob:
-                return [FALSY_KEY, RESIDX_KEY], det
+    det = {"wrong_index_matches_in_A": a.get("result_index_mismatch", 0)}
+    t_f, n_f = relax_falsy_constants(text)
+    t_r, n_r = relax_repeated_results(text)
+    det["falsy_constants_in_match"] = n_f
+    det["repeated_result_operand_uses"] = n_r
+    variants = [((), text)]
+    if n_f:
+        variants.append(((FALSY_KEY,), t_f))
+    if n_r:
+        variants.append(((REPRES_KEY,), t_r))
+    if n_f and n_r:
+        variants.append(((FALSY_KEY, REPRES_KEY), relax_repeated_results(t_f)[0]))
+    for keys, t in variants:
+        at = a if not keys else run_a(t, limit)
+        if keys and outcome(at) == ob:
+            return list(keys), det
+        if at.get("result_index_mismatch", 0) > 0:
+            if outcome(run_a(t, limit, guard_result_index=True)) == ob:
+                return list(keys) + [RESIDX_KEY], det
     sa, sb = a["status"], b["status"]
     if sa == "ok" and sb == "diverged":
         return ["termination:compiled-path-diverges"], det
